@@ -38,7 +38,9 @@ import (
 	"path/filepath"
 	"regexp"
 	"runtime"
+	"runtime/debug"
 	"runtime/metrics"
+	"runtime/pprof"
 	"sort"
 	"strings"
 	"sync"
@@ -52,17 +54,34 @@ import (
 
 const (
 	allocBase = 64 << 20
-	// a child that allocated more than this in one call is replaced by a fresh one (no violation): a later huge
-	// allocation that overlaps memory used before must be zeroed by the runtime, which takes seconds
-	allocRestart = 4 << 20
-	hangAfter    = 30 * time.Second
+	allocSlack = 64 << 10 // measurement noise (runtime bookkeeping) is not a violation
+	allocBig  = 2 << 20 // see gcPolicy
+	allocCap  = 8       // allocation violations per job after which the rest of the job is skipped (each costs ~0.1 s)
+	hangAfter = 30 * time.Second
 )
+
+// gcPolicy: a huge allocation that overlaps memory the runtime has used and freed before must be zeroed, which
+// costs seconds per GiB here. A child therefore exits after the first call that allocated more than allocBig
+// and the parent finishes that job with a child whose collector is off from the start (C16_GCOFF): nothing is
+// ever freed there (huge buffers are never touched, so they cost address space only); such a child is
+// replaced after 1 GiB of garbage and at the end of the job.
+var gcOff, gcDirty = false, uint64(0)
+
+func gcPolicy(alloc uint64, beforeExit func()) {
+	if !gcOff && alloc <= allocBig {
+		return
+	}
+	if gcDirty += min(alloc, allocBig); !gcOff || gcDirty > 1<<30 {
+		beforeExit()
+		os.Exit(5)
+	}
+}
 
 // crash/alloc/hang events tolerated per job before the rest of the job is skipped (raw families: every
 // following input is likely to be one more event)
 func jobEventCap(f *family) int {
 	if f.phase == 2 {
-		return 64
+		return 12
 	}
 	return 4
 }
@@ -117,7 +136,8 @@ type rmsg struct {
 	Outcomes map[string]int64
 	Flaky    []string
 	Groups   map[string]int64 // violation group (class|site) -> number of inputs of this job in it
-	Partial  bool             // the child exits after this line (allocation event); the parent resumes the job
+	Partial  bool             // the child exits after this line (gcPolicy); the parent resumes the job
+	Stopped  int              // >0: the job was abandoned before this index after allocCap allocation violations
 }
 
 type line struct {
@@ -251,11 +271,24 @@ func rawFam(t *target, n int) []*family {
 	return fs
 }
 
-func altFam(t *target, e *enc, chunk int) *family {
-	ops := altOps(e)
-	return &family{t: t, name: "alt:" + e.Name, phase: 2, n: len(ops), e: e, batch: 1, chunk: chunk, gen: func(i int) ([]byte, string) {
-		return applyOp(e.B, ops[i]), fmt.Sprintf("alter=%s of %s", ops[i], e.Name)
-	}}
+// altFams: one family per (encoding, operator kind), so that the event cap of a job only cuts the operator
+// that keeps killing the process.
+func altFams(t *target, e *enc, chunk int) (fs []*family) {
+	byKind := map[string][]altOp{}
+	var kinds []string
+	for _, o := range altOps(e) {
+		if byKind[o.kind] == nil {
+			kinds = append(kinds, o.kind)
+		}
+		byKind[o.kind] = append(byKind[o.kind], o)
+	}
+	for _, k := range kinds {
+		ops := byKind[k]
+		fs = append(fs, &family{t: t, name: "alt:" + e.Name + "/" + k, phase: 2, n: len(ops), e: e, batch: 1, chunk: chunk, gen: func(i int) ([]byte, string) {
+			return applyOp(e.B, ops[i]), fmt.Sprintf("alter=%s of %s", ops[i], e.Name)
+		}})
+	}
+	return fs
 }
 
 // ---------- child ----------
@@ -302,6 +335,14 @@ func inputDesc(in []byte, desc string) string {
 }
 
 func childMain() {
+	if pf := os.Getenv("C16_PROF"); pf != "" {
+		f, _ := os.Create(pf)
+		pprof.StartCPUProfile(f)
+		defer pprof.StopCPUProfile()
+	}
+	if gcOff = os.Getenv("C16_GCOFF") != ""; gcOff {
+		debug.SetGCPercent(-1)
+	}
 	loadPrep(os.Getenv("C16_DIR"))
 	buildTargets(os.Getenv("C16_TIER") == "thorough")
 	cell := mapCell(os.Getenv("C16_CELL"))
@@ -335,6 +376,7 @@ func childMain() {
 				emit(line{V: &v})
 			}
 		}
+		nAllocViol := 0
 		norm := map[string]string{}
 		hexOf := func(in []byte) string { return trunc(hex.EncodeToString(in), 8192) }
 		one := func(i int, measure bool) (alloc uint64) {
@@ -371,21 +413,23 @@ func childMain() {
 				}
 				r.Outcomes[n]++
 			}
-			if measure && alloc > allocRestart {
-				code := 5
-				if alloc > allocBase+64*uint64(len(in)) {
-					code = 3
-					send(vmsg{Class: "alloc", At: "-", Desc: inputDesc(in, desc), Hex: hexOf(in), I: i,
-						Detail: fmt.Sprintf("one call allocated %d bytes (TotalAlloc delta) for an input of %d bytes; budget 64 MiB + 64*len", alloc, len(in))})
-				}
-				r.Partial = true
-				emit(line{R: r})
-				os.Exit(code) // fresh address space for what follows; the parent resumes after i
+			if measure && alloc > allocBase+64*uint64(len(in))+allocSlack {
+				r.Outcomes["alloc>budget"]++
+				nAllocViol++
+				send(vmsg{Class: "alloc", At: "-", Desc: inputDesc(in, desc), Hex: hexOf(in), I: i,
+					Detail: fmt.Sprintf("one call allocated %d bytes (TotalAlloc delta) for an input of %d bytes; budget 64 MiB + 64*len", alloc, len(in))})
+			}
+			if measure {
+				gcPolicy(alloc, func() { r.Partial = true; emit(line{R: r}) })
 			}
 			return alloc
 		}
 		atomic.StoreUint64(&cell[0], uint64(j.Seq))
 		for i := j.Lo; i < j.Hi; i += f.batch {
+			if nAllocViol >= allocCap {
+				r.Stopped = i
+				break
+			}
 			hi := i + f.batch
 			if hi > j.Hi {
 				hi = j.Hi
@@ -398,10 +442,12 @@ func childMain() {
 			for k := i; k < hi; k++ {
 				one(k, false)
 			}
-			if allocNow()-a0 > allocRestart {
+			if d := allocNow() - a0; d > allocBig {
 				for k := i; k < hi; k++ {
 					one(k, true)
 				}
+			} else {
+				gcPolicy(d, func() { r.Partial = true; emit(line{R: r}) })
 			}
 		}
 		atomic.StoreUint64(&cell[1], ^uint64(0))
@@ -432,6 +478,8 @@ type worker struct {
 	cell   []uint64
 	stderr *tailBuf
 	mu     sync.Mutex  // guards cmd against the watchdog
+	gcOff  bool        // start the next child with the collector off (see gcPolicy)
+	dirty  bool        // the running child has the collector off
 	killed atomic.Bool // set by the watchdog
 	since  atomic.Int64
 	last   [2]uint64
@@ -467,6 +515,9 @@ func (w *worker) start() {
 	w.cmd = exec.Command(os.Args[0])
 	w.cmd.Env = append(os.Environ(), "C16_CHILD=1", "C16_DIR="+scratch, "C16_CELL="+cellPath, "C16_TIER="+c.Tier,
 		fmt.Sprintf("C16_SLOT=%d", w.slot), "GOMAXPROCS=1")
+	if w.dirty = w.gcOff; w.gcOff {
+		w.cmd.Env = append(w.cmd.Env, "C16_GCOFF=1")
+	}
 	ip, _ := w.cmd.StdinPipe()
 	op, _ := w.cmd.StdoutPipe()
 	w.stderr = &tailBuf{}
@@ -533,8 +584,8 @@ func (w *worker) runJob(j job, onV func(vmsg)) (*rmsg, *event) {
 	ev := &event{kind: "crash", idx: idx, text: fmt.Sprintf("%v\n%s", err, w.stderr.String())}
 	if ee, ok := err.(*exec.ExitError); w.killed.Load() {
 		ev.kind = "hang"
-	} else if ok && partial != nil && (ee.ExitCode() == 3 || ee.ExitCode() == 5) {
-		ev.kind = fmt.Sprintf("exit%d", ee.ExitCode())
+	} else if ok && partial != nil && ee.ExitCode() == 5 {
+		ev.kind = "exit5"
 	}
 	return partial, ev
 }
@@ -630,6 +681,11 @@ func execJob(w *worker, j job) {
 	f := findFam(j.T, j.F)
 	events := 0
 	lo := j.Lo
+	defer func() { // a child without collector serves one job only
+		if w.gcOff = false; w.dirty {
+			w.stop()
+		}
+	}()
 	for lo < j.Hi {
 		jj := j
 		jj.Lo = lo
@@ -653,6 +709,16 @@ func execJob(w *worker, j job) {
 			for _, fl := range r.Flaky {
 				c.CapHit("non-reproducible panic, not reported: " + fl)
 			}
+			if r.Outcomes["alloc>budget"] > 0 && f.phase != 2 {
+				aggMu.Lock()
+				if flagged[j.T] == "" {
+					flagged[j.T] = "allocation beyond the budget in " + j.F
+				}
+				aggMu.Unlock()
+			}
+			if r.Stopped > 0 {
+				c.CapHit(fmt.Sprintf("%s %s: %d allocation violations in inputs [%d,%d), inputs [%d,%d) of this job skipped", j.T, j.F, allocCap, j.Lo, r.Stopped, r.Stopped, j.Hi))
+			}
 		}
 		if ev == nil {
 			return
@@ -667,10 +733,12 @@ func execJob(w *worker, j job) {
 			evalsBy[j.T] += int64(ev.idx - lo + 1)
 			aggMu.Unlock()
 		}
-		if ev.kind == "exit5" { // replaced after a large (but allowed) allocation
-			lo = ev.idx + 1
+		lo = ev.idx + 1
+		if ev.kind == "exit5" { // child replaced itself (gcPolicy)
+			w.gcOff = true
 			continue
 		}
+		events++
 		in, desc := f.gen(ev.idx)
 		d := inputDesc(in, desc)
 		hx := hex.EncodeToString(in)
@@ -678,7 +746,6 @@ func execJob(w *worker, j job) {
 			hx = hx[:8192]
 		}
 		switch ev.kind {
-		case "exit3": // allocation violation, already received as a V line
 		case "crash":
 			culprit := -1
 			for _, k := range []int{ev.idx, ev.idx - 1} { // a background goroutine may die one input late
@@ -716,8 +783,6 @@ func execJob(w *worker, j job) {
 			flagged[j.T] = fmt.Sprintf("%s at %s in %s", ev.kind, d, j.F)
 		}
 		aggMu.Unlock()
-		events++
-		lo = ev.idx + 1
 		if events >= jobEventCap(f) && lo < j.Hi {
 			c.CapHit(fmt.Sprintf("%s %s: %d crash/alloc/hang events in inputs [%d,%d), inputs [%d,%d) of this job skipped", j.T, j.F, events, j.Lo, lo, lo, j.Hi))
 			return
@@ -781,6 +846,10 @@ var jobsDone int64
 func main() {
 	if os.Getenv("C16_CHILD") != "" {
 		childMain()
+		return
+	}
+	if d := os.Getenv("C16_PREPONLY"); d != "" { // debugging aid: build the encodings, then feed jobs to a child by hand
+		prepare(d, false)
 		return
 	}
 	c = lib.New("C16", "exploration", 100*time.Second, 25*time.Minute)
